@@ -503,6 +503,53 @@ def u_parameters(root):
 
 
 
+
+def u_fitter_books(root):
+    """NexusFitter keeps the record of fixed and limited parameters that ndf, the error band and saved files read: each of the four mutators tells the back end and
+    updates exactly ITS record for exactly THAT name; the other record and the other names are untouched"""
+    eng = engine(root, ["kafe2/core/fitters/nexus_fitter.py"], {"NexusFitter": {"_minimizer": PYOBJ, "_fixed_pars": PYOBJ, "_limited_pars": PYOBJ}}, [])
+    cur = VNum(z3.Real("current_value_of_b"))
+    mk(eng, "NexusFitter", "get_fit_parameter_values", result=lambda vw: VDict({"b": cur}))
+    mk(eng, "NexusFitter", "set_fit_parameter_values", result=lambda vw: (log(vw.post, "set_values", dict(vw.args["parameter_value_dict"].d) if isinstance(vw.args.get("parameter_value_dict"), VDict) else {k_: v_ for k_, v_ in vw.args.items() if k_ != "self"}), VNone())[1])
+    fa, lc = VNum(z3.Real("fixed_a")), VTuple([VNum(z3.Real("lo_c")), VNum(z3.Real("hi_c"))])
+    lb = VTuple([VNum(z3.Real("lo_b")), VNum(z3.Real("hi_b"))])
+    for name, args, start_fixed, start_limited in (("fix_parameter", {"name": VStr("b"), "value": VNone()}, {"a": fa}, {"c": lc}), ("fix_parameter", {"name": VStr("b"), "value": VNum(z3.Real("fix_at"))}, {"a": fa}, {"b": lb}),
+                                                   ("release_parameter", {"name": VStr("b")}, {"a": fa, "b": cur}, {"b": lb, "c": lc}), ("release_parameter", {"name": VStr("b")}, {"a": fa}, {"c": lc}),
+                                                   ("limit_parameter", {"name": VStr("b"), "limits": lb}, {"b": cur}, {"c": lc}), ("unlimit_parameter", {"name": VStr("b")}, {"b": cur}, {"b": lb, "c": lc}),
+                                                   ("unlimit_parameter", {"name": VStr("b")}, {"b": cur}, {"c": lc})):
+        c = Contract("NexusFitter", name)
+
+        def post(vw, name=name, args=args, start_fixed=start_fixed, start_limited=start_limited):
+            fx_, lm_ = vw.f(vw.post, vw.self, "_fixed_pars"), vw.f(vw.post, vw.self, "_limited_pars")
+            calls = [x for x in fx(vw, "call") if x[1] == "minimizer"]
+            want_f, want_l = dict(start_fixed), dict(start_limited)
+            if name == "fix_parameter":
+                want_f["b"] = cur
+            elif name == "release_parameter":
+                want_f.pop("b", None)
+            elif name == "limit_parameter":
+                want_l["b"] = args["limits"]
+            else:
+                want_l.pop("b", None)
+            backend = {"fix_parameter": "fix", "release_parameter": "release", "limit_parameter": "limit", "unlimit_parameter": "unlimit"}[name]
+            out = [("the back end is told, once, for that name", z3.BoolVal(len(calls) == 1 and calls[0][2] == backend and isinstance(calls[0][3][0], VStr) and calls[0][3][0].s == "b")),
+                   ("the record of FIXED parameters afterwards: " + str(sorted(want_f)), z3.BoolVal(isinstance(fx_, VDict) and set(fx_.d) == set(want_f) and all(same_object(fx_.d[k_], want_f[k_]) for k_ in want_f))),
+                   ("the record of LIMITED parameters afterwards: " + str(sorted(want_l)), z3.BoolVal(isinstance(lm_, VDict) and set(lm_.d) == set(want_l) and all(same_object(lm_.d[k_], want_l[k_]) for k_ in want_l)))]
+            if name == "fix_parameter" and isinstance(args["value"], VNum):
+                sv = fx(vw, "set_values")
+                out.append(("a given value is assigned through set_fit_parameter_values BEFORE the parameter is fixed", z3.BoolVal(len(sv) == 1 and set(sv[0][1]) == {"b"} and fx(vw).index(sv[0]) < fx(vw).index(calls[0])) if calls else z3.BoolVal(False)))
+            return out
+        c.ensures.append(post)
+
+        def init(e, st, me_, args=args, start_fixed=start_fixed, start_limited=start_limited):
+            e.write_field(st, me_, "_minimizer", Part("minimizer"))
+            e.write_field(st, me_, "_fixed_pars", VDict(dict(start_fixed)))
+            e.write_field(st, me_, "_limited_pars", VDict(dict(start_limited)))
+            return dict(args)
+        eng.verify("NexusFitter", name, None, init, contract=c, tag=f"(fixed before: {sorted(start_fixed)}, limited before: {sorted(start_limited)}{', value given' if isinstance(args.get('value'), VNum) else ''})")
+    return eng
+
+
 # ------------------------------------------------------------------ do_fit typestate
 def u_freeze(root):
     eng = fit_engine(root)
@@ -869,5 +916,5 @@ def u_readback(root):
 
 
 def units(root):
-    return [Unit("_init_nexus registry of the four fit types", u_registry), Unit("uncertainty sources: container -> fit -> graph", u_sources), Unit("data replacement", u_data), Unit("parameter constraints", u_constraints), Unit("parameter mutators", u_parameters),
+    return [Unit("_init_nexus registry of the four fit types", u_registry), Unit("uncertainty sources: container -> fit -> graph", u_sources), Unit("data replacement", u_data), Unit("parameter constraints", u_constraints), Unit("parameter mutators", u_parameters), Unit("NexusFitter records of fixed / limited parameters", u_fitter_books),
             Unit("public read-only properties: frame", u_reads), Unit("MinimizerIMinuit.minimize reads results back from the back end", u_readback, bounded="2 parameters (the write-back loop is unrolled); cached / uncached values and uncertainties at entry"), Unit("freeze / unfreeze protocol and node lists", u_freeze), Unit("do_fit typestate for any number of refits (ghost bracket state, loop invariant)", u_do_fit_proof), Unit("do_fit typestate (balanced brackets)", u_do_fit, bounded="iterative refits unrolled to at most 2 passes (the loop body is one bracket); freeze lists, flags and cost kinds enumerated")]
